@@ -25,7 +25,7 @@ from sim.c01_session import check_find_answer, _nest
 from sim.c02_solve import check_solve, expected_facts
 
 ID = "C03"
-TIERS = {"quick": 10000, "thorough": 200000}
+TIERS = {"quick": 60000, "thorough": 600000}
 RULE = (
     "each run = one seeded program (<=6 variables with contiguous or sparse/shuffled ids, domain product <=1024, constraint "
     "trees over every DSL operator plus the two native graph operators), an answer-key subset, one of the five backend names, "
